@@ -323,6 +323,7 @@ const preludeCore = `(declare-sort Str 0)
 (declare-fun bytes_of ((Array (_ BitVec 64) (_ BitVec 8)) (_ BitVec 64) (_ BitVec 64)) Bytes)
 (declare-fun blen (Bytes) (_ BitVec 64))
 (declare-fun bat (Bytes (_ BitVec 64)) (_ BitVec 8))
+(declare-fun bcat (Bytes Bytes) Bytes)
 (declare-fun str_of_bytes (Bytes) Str)
 (declare-fun bytes_of_str (Str) Bytes)
 (declare-fun dyntype ((_ BitVec 64)) Int)
